@@ -192,18 +192,18 @@ CLAIMED = {
     },
     "C17": {
         "category": "exploration",
-        "text": "Exhaustive over all rooted plane trees of any arity with <= 8 (quick) / 10 (thorough) nodes built through the ete3 API (plus edit "
-                "histories: structure built, the same tree object edited by every subtree move / leaf addition / removal, rebuilt; <= 6 / 7 nodes): every "
+        "text": "Exhaustive over all rooted plane trees of any arity with <= 9 (quick) / 11 (thorough) nodes built through the ete3 API (plus edit "
+                "histories: structure built, the same tree object edited by every subtree move / leaf addition / removal, rebuilt; <= 7 / 8 nodes): every "
                 "node, ordered pair and ordered triple for lca / is_ancestor_of / is_strict_ancestor_of / is_comparable / level / distance against "
-                "parent-chain definitions; every array of length <= 10 / 12 over {0,1,2} x every (start, stop) pair for RangeMinQuery.",
+                "parent-chain definitions; every array of length <= 11 / 13 over {0,1,2} x every (start, stop) pair for RangeMinQuery.",
         "design_ref": "6 (C17)",
-        "note": "Trusted: ete3 parent/children pointers, refmodel/trees.py. Trees beyond 10 nodes and arrays beyond length 12 are not explored.",
+        "note": "Trusted: ete3 parent/children pointers, refmodel/trees.py. Trees beyond 11 nodes and arrays beyond length 13 are not explored.",
         "technique": TECH_E2,
     },
     "C18": {
         "category": "exploration",
-        "text": "Exhaustive over all (child != 0, parent) mask pairs up to 10 (quick) / 12 (thorough) bits x both end modes against an independent "
-                "run counter, and all sequences of distinct elements up to length 10 / 12 with all their subsequences (three element alphabets) "
+        "text": "Exhaustive over all (child != 0, parent) mask pairs up to 11 (quick) / 13 (thorough) bits x both end modes against an independent "
+                "run counter, and all sequences of distinct elements up to length 11 / 13 with all their subsequences (three element alphabets) "
                 "for the mask <-> subsequence round trip.",
         "design_ref": "6 (C18)",
         "note": "Trusted: refmodel/graphs.py:lost_runs_mask.",
